@@ -79,6 +79,7 @@ def run_one(prop: str, run_seed: int, tier: str, ops=None, cfg=None, want_log=Fa
     if sim is not None:
         res["digest"] = sim.digest()
         res["stats"] = sim.stats
+        res["abstract_states"] = sorted(sim.abstract_states)
         res["steps_done"] = len([x for x in sim.log if isinstance(x[0], int) and len(x) == 3])
         if want_log:
             res["log"] = sim.log
@@ -271,6 +272,7 @@ def batch(prop: str, tier: str, base_seed: int, budget_s=None, max_runs=None, wo
     known = known_index(prop)
     agg = {"stats": {}, "wstats": {}}
     digests = set()
+    abstract_states = set()
     nontrivial_digests = set()
     samples = []
     evaluations = 0
@@ -313,6 +315,7 @@ def batch(prop: str, tier: str, base_seed: int, budget_s=None, max_runs=None, wo
                     continue
                 merge_counts(agg["stats"], r.get("stats", {}))
                 merge_counts(agg["wstats"], r.get("wstats", {}))
+                abstract_states.update(r.get("abstract_states", ()))
                 dg = r.get("digest")
                 if dg not in digests:
                     digests.add(dg)
@@ -332,7 +335,7 @@ def batch(prop: str, tier: str, base_seed: int, budget_s=None, max_runs=None, wo
                         known_seen[ident] = known_seen.get(ident, 0) + 1
                     elif ident not in viols:
                         viols[ident] = r
-            if time.time() - t0 < tcfg["budget_s"] and not errors and len(viols) < 8:
+            if time.time() - t0 < tcfg["budget_s"] and not errors and len(viols) < 4:
                 submit()
         wall_explore = time.time() - t0
 
@@ -360,7 +363,11 @@ def batch(prop: str, tier: str, base_seed: int, budget_s=None, max_runs=None, wo
         # minimise and report new violations
         exit_code = 0
         reported = []
-        for ident, r in viols.items():
+        # minimise the first few distinct violations; further ones are listed without minimisation
+        extra = list(viols.items())[4:]
+        for ident, r in extra:
+            print(f"[dsim] further distinct violation (not minimised): check={ident[0]} key={ident[1]} run_seed={r['seed']}", flush=True)
+        for ident, r in list(viols.items())[:4]:
             v = r["violation"]
             small, tests = shrink(pool, prop, r["seed"], r["cfg"], r["ops"], ident, budget_s=90 if tier == "quick" else 240)
             rr = _in_pool(pool, _worker_replay, prop, r["seed"], r["cfg"], small)
@@ -394,6 +401,10 @@ def batch(prop: str, tier: str, base_seed: int, budget_s=None, max_runs=None, wo
             "ops_total": ops_total,
             "steps_simulated": steps_total,
             "ops_by_kind": st.get("ops", {}),
+            "distinct_abstract_states": len(abstract_states),
+            "abstract_state_measure": "hash of (profile, op kind, outcome, open documents, per table: buckets of rows/cols/non-empty cells/merges/strokes/styled cells, header counts, saved/failed-save flags, status of every slot) after each op",
+            "op_bigram_coverage": {"distinct": len(st.get("bigrams", {})), "possible": (len(st.get("ops", {})) + 1) * max(1, len(st.get("ops", {}))),
+                                   "rarest": sorted(st.get("bigrams", {}).items(), key=lambda kv: kv[1])[:8]},
             "outcomes": st.get("outcomes", {}),
             "invariant_evaluations": st.get("checks", 0),
             "cells_compared": st.get("cells_compared", 0),
